@@ -63,11 +63,18 @@ Definition ps_exists (cfg : config) (p : peer) (s : pslice) : bool := memb p (ps
 Definition ps_add1 (cfg : config) (p : peer) (s : pslice) : pslice :=
   if ps_exists cfg p s then s else upd (pbin cfg p) (fun l => l ++ [p]) s.
 
-(** [Add] with 0 or >= 2 addresses: existence is decided against the STORED bins only,
-    then every address not found is appended in argument order *)
+(** [Add] with 0 or >= 2 addresses: an address is skipped when it is found in the STORED bin or
+    was already accepted earlier in the same batch ([seen]); the others are appended in argument order *)
+Fixpoint batch_new (cfg : config) (s : pslice) (ps : list peer) (seen : list peer) : list peer :=
+  match ps with
+  | [] => []
+  | p :: t =>
+      if ps_exists cfg p s || memb p seen then batch_new cfg s t seen
+      else p :: batch_new cfg s t (p :: seen)
+  end.
+
 Definition ps_add_batch (cfg : config) (ps : list peer) (s : pslice) : pslice :=
-  fold_left (fun acc p => upd (pbin cfg p) (fun l => l ++ [p]) acc)
-            (filter (fun p => negb (ps_exists cfg p s)) ps) s.
+  fold_left (fun acc p => upd (pbin cfg p) (fun l => l ++ [p]) acc) (batch_new cfg s ps []) s.
 
 Definition ps_add (cfg : config) (ps : list peer) (s : pslice) : pslice :=
   match ps with
@@ -116,6 +123,7 @@ Fixpoint scan1 (qs : N) (flt : peer -> bool) (l : list (peer * N)) (su bc : N) :
       if flt a then scan1 qs flt t su bc
       else if bin =? su then scan1 qs flt t su (bc + 1)
       else if (su <? bin) && (bc <? qs) then su
+      else if su + 1 <? bin then su + 1      (* bins in between hold no unfiltered peer *)
       else scan1 qs flt t bin 1
   end.
 
@@ -270,13 +278,11 @@ Fixpoint remove_all (p : peer) (l : list peer) : list peer :=
   | x :: t => if peer_eqb p x then remove_all p t else x :: remove_all p t
   end.
 
-(** [Reachable(addr, status)] *)
+(** [Reachable(addr, status)]: the status is recorded and the depth recomputed, whatever the status *)
 Definition reach (cfg : config) (st : state) (p : peer) (pub : bool) : state :=
-  if pub then
-    let pb := if memb p (public st) then public st else p :: public st in
-    mkState (conn st) (known st) (protect st) pb (cur_depth cfg (thr st) (conn st) pb) (thr st)
-  else
-    mkState (conn st) (known st) (protect st) (remove_all p (public st)) (depth st) (thr st).
+  let pb := if pub then (if memb p (public st) then public st else p :: public st)
+            else remove_all p (public st) in
+  mkState (conn st) (known st) (protect st) pb (cur_depth cfg (thr st) (conn st) pb) (thr st).
 
 (** [New]: BinMaxPeers > 0 rewrites overSaturationPeers (rounded up to a multiple of 5, at
     least 5), saturationPeers = over/5*2 and quickSaturationPeers = over/5 — package variables
